@@ -14,7 +14,7 @@ import simcheck
 import simcorr
 import simgen
 from framework import fresh_import, sh, LEAN_DIR
-from simcheck import t_bias, single_step, build_impls
+from simcheck import t_bias, single_step, build_impls, guarded
 from indep import z80alu
 
 PROPS = 'SkoolVerif.Props.C05'
@@ -59,54 +59,14 @@ def gen_state(rng, tbl, op):
     return regs, fields, mem, ins, tracers
 
 
-GRID16 = (0x0000, 0x0001, 0x0FFF, 0x1000, 0x7FFF, 0x8000, 0x8001, 0xFFFE, 0xFFFF)
-GRID8 = (0x00, 0x01, 0x0F, 0x10, 0x7F, 0x80, 0xFF)
-# slots whose flags the simulators compute by hand (no lookup table): 16-bit arithmetic, block
-# instructions, RLD/RRD, LD A,I/R - the C bodies repeat these formulas independently of the Python ones
-ARITH16 = ([('MAIN', o) for o in (0x09, 0x19, 0x29, 0x39)] + [('DD', o) for o in (0x09, 0x19, 0x29, 0x39)]
-           + [('FD', o) for o in (0x09, 0x19, 0x29, 0x39)]
-           + [('ED', o) for o in (0x42, 0x52, 0x62, 0x72, 0x4A, 0x5A, 0x6A, 0x7A)])
-BLOCK8 = [('ED', o) for o in (0xA0, 0xA1, 0xA2, 0xA3, 0xA8, 0xA9, 0xAA, 0xAB, 0xB0, 0xB1, 0xB2, 0xB3, 0xB8, 0xB9, 0xBA, 0xBB,
-                              0x67, 0x6F)]
-
-
 def grid_states(rng, thorough):
-    """Directed operand grids (every run): all pairs of 16-bit boundary operands x carry for the
-    16-bit arithmetic slots; A x (HL) x counter boundaries for block instructions and RLD/RRD."""
-    g16 = EDGE16 if thorough else GRID16
-    g8 = EDGE8 if thorough else GRID8
-    for tbl, op in ARITH16:
-        dst = {'MAIN': (6, 7), 'ED': (6, 7), 'DD': (8, 9), 'FD': (10, 11)}[tbl]
-        src = ((2, 3), (4, 5), dst, None)[(op >> 4) & 3]
-        for x in g16:
-            for y in g16:
-                if src == dst and x != y:
-                    continue
-                for cf in (0, 1):
-                    regs, fields, mem, ins, tracers = simcorr.rand_state(rng, tbl, op, t_bias=t_bias)
-                    regs[dst[0]], regs[dst[1]] = x >> 8, x & 255
-                    if src is None:
-                        regs[12] = y
-                    else:
-                        regs[src[0]], regs[src[1]] = y >> 8, y & 255
-                    regs[1] = (regs[1] & 0xFE) | cf
-                    tracers[0] = 1 if (tracers[0] or tracers[1] or tracers[2]) else 0
-                    yield (tbl, op), (regs, fields, mem, ins, tracers)
-    for tbl, op in BLOCK8:
-        for a in g8:
-            for v in g8:
-                for bc in (0, 1, 2, 0x100, 0x101, 0xFFFF):
-                    regs, fields, mem, ins, tracers = simcorr.rand_state(rng, tbl, op, t_bias=t_bias)
-                    regs[0] = a
-                    regs[2], regs[3] = bc >> 8, bc & 255
-                    hl = regs[7] + 256 * regs[6]
-                    pc = fields[0]
-                    if hl in (pc, (pc + 1) % 65536) or hl < 0x4000:
-                        continue
-                    mem[hl] = v
-                    ins = [v, ins[1]]
-                    tracers[0] = 1 if (tracers[0] or tracers[1] or tracers[2]) else 0
-                    yield (tbl, op), (regs, fields, mem, ins, tracers)
+    """Directed operand grids (every run): see simcheck.operand_grids, plus the interrupt-window edges of the three
+    instructions that read the clock (HALT, LD A,I, LD A,R)."""
+    yield from simcheck.operand_grids(rng, thorough)
+    for tbl, op in simcheck.CLOCK_SLOTS:
+        for st in simcheck.window_states(rng, tbl, op):
+            st[4][0] = 1 if (st[4][0] or st[4][1] or st[4][2]) else 0
+            yield (tbl, op), st
 
 
 def split_line(line, mem):
@@ -174,10 +134,13 @@ def spec_vs_real(chk, impls, mnem):
         states.append(st_)
         slots.append(sl_)
     if chk.breaks and hasattr(simcheck, 'suspect_slots'):
-        # directed search (DESIGN §5): the slots whose closure / dispatch row changed against the committed
-        # translation get every combination of boundary operand bytes plus a few hundred more states
-        for tbl, op in simcheck.suspect_slots(chk)[:400]:
-            for st in simcheck.directed_states(rng, tbl, op, chk.scale(100, 1000)):
+        # directed search (DESIGN §5): the slots whose Python closure / C handler / dispatch row changed against the committed
+        # translation get every combination of boundary operand bytes plus a few hundred more states, and a deterministic
+        # sweep of their address operands over the 16K / 64K edges, loop counters, R wrap and interrupt-window edges
+        sus = sorted(set(simcheck.suspect_slots(chk)) | set(simcheck.c_suspect_slots(chk)))
+        light = len(sus) > 40
+        for tbl, op in sus[:700]:
+            for st in list(simcheck.directed_states(rng, tbl, op, 10 if light else chk.scale(100, 1000))) + list(simcheck.edge_states(rng, tbl, op, light=light)):
                 st[4][0] = 1 if (st[4][0] or st[4][1] or st[4][2]) else 0
                 states.append(st)
                 slots.append((tbl, op))
@@ -418,6 +381,12 @@ def alu_instructions(chk, classes):
     rng = chk.rng
     stride = chk.scale(37, 1)
     for name, cls in classes:
+        guarded(chk, f'alu-instructions:{name}', _alu_instructions_one, chk, name, cls, stride)
+
+
+def _alu_instructions_one(chk, name, cls, stride):
+    rng = chk.rng
+    if True:
         sim = cls([0] * 65536)
         regs = sim.registers
         mem = sim.memory
@@ -552,15 +521,15 @@ def run(chk):
         rc, out = sh(['lake', 'build', 'SkoolVerif.Spec.Z80Sem', 'SkoolVerif.Prelude.SimProto'], cwd=LEAN_DIR, timeout=1200)
         spec_ok = rc == 0
     impls, classes = build_impls(chk)
-    tables_ok = table_sweep(chk, simtables)
+    tables_ok = guarded(chk, 'table-sweep', table_sweep, chk, simtables)
     if gen_ok:
         alu_check_driver(chk)
     if gen_ok and ok:
-        single_step(chk, impls)
+        guarded(chk, 'single-step', single_step, chk, impls)
     if spec_ok:
         mnem = decode_table(chk)
-        spec_vs_real(chk, impls, mnem)
-        programs(chk, classes, mnem)
+        guarded(chk, 'spec-vs-real', spec_vs_real, chk, impls, mnem)
+        guarded(chk, 'programs', programs, chk, classes, mnem)
     alu_instructions(chk, classes)
     chk.extra['tables_ok'] = tables_ok
 
@@ -585,6 +554,10 @@ def replay(chk, data):
         # re-derive the expectation from the oracle by re-running the sweep on this implementation only
         n0 = len(chk.violations)
         alu_instructions(chk, [(data['impl'], cls)])
+        return len(chk.violations) > n0
+    if kind == 'group-exception':
+        n0 = len(chk.violations)
+        run(chk)
         return len(chk.violations) > n0
     regs, fields, mem, ins, tracers = data['state']
     st = (regs, fields, {int(k): v for k, v in mem.items()}, ins, tracers)
